@@ -172,7 +172,31 @@ func c03RefFlatten(out, vs []any, depth int) []any {
 func H_C03_arrays() {
 	a := c03IntArr()
 	snap := hDeepCopy(a).([]any)
-	switch nondetChoice(9) {
+	switch nondetChoice(10) {
+	case 8:
+		// contains / inside on arrays: every element of b is contained in SOME element of a
+		// (several elements of b may be matched by the same element, so b may be longer)
+		b := c03IntArr()
+		want := true
+		for _, y := range b {
+			found := false
+			for _, x := range snap {
+				if x.(int) == y.(int) {
+					found = true
+				}
+			}
+			if !found {
+				want = false
+			}
+		}
+		vassert(funcContains(a, b).(bool) == want, "an array contains another iff each of its elements is contained in some element")
+		vassert(funcInside(b, a).(bool) == want, "inside is contains with the arguments swapped")
+		if len(a) > 0 {
+			vassert(funcContains(a, []any{a[0], a[0], a[len(a)-1], a[0]}).(bool), "duplicates on the right are matched by the same element")
+		}
+		s := nondetString(2)
+		vassert(funcContains([]any{s + "x"}, []any{s, "x", s[:1], s}).(bool), "several strings may be contained in the same element")
+		vassert(funcContains(map[string]any{"k": []any{s + "x"}, "l": 1}, map[string]any{"k": []any{"x", s}}).(bool), "containment of objects descends into arrays")
 	case 0:
 		vassert(funcLength(a).(int) == len(a), "length of an array")
 		r := funcReverse(a).([]any)
